@@ -195,6 +195,39 @@ class E4Session(SessionBase):
         self._check_sim('after design')
         return {'kind': 'ok', 'digest': jdigest(exp)}
 
+    def do_failed_design(self, solver_call):
+        """a design of the initial documents that dies half-way (exception injected at the k-th call of the Raman/SRS
+        solver, which auto-design uses for Raman spans and multiband tilt estimation).  Nothing is judged about the
+        aborted design itself (note N1); what it leaves behind must not change what the next design produces."""
+        if self.discarded:
+            return {'kind': 'skip'}
+        self._check_sim('before design')
+        try:
+            equipment = gn.load_equipment(self.world)
+            network = gn.load_network(self.world['topo'], equipment)
+        except gn.REJECT:
+            return {'kind': 'skip'}
+        TAP.arm(solver_fault_at=solver_call)
+        try:
+            gn.design(equipment, network)
+            fired = False
+        except InjectedFault:
+            fired = True
+        except gn.REJECT:
+            fired = False
+        finally:
+            TAP.reset()
+        if not fired:
+            return {'kind': 'fault-did-not-fire'}
+        self.st.faults['design_aborted_in_solver'] += 1
+        if gn.sim_params_snapshot() != self.expected_sim:
+            self.st.notes['N1_sim_params_left_overwritten_by_aborted_design'] += 1
+            gn.reset_process_globals()
+            if self.sim_doc is not None:
+                gn.set_sim_params(self.sim_doc)
+        self.nontrivial = True
+        return {'kind': 'aborted'}
+
     def do_export(self, fault=None):
         if self.discarded or not self.designed:
             return {'kind': 'skip'}
@@ -292,6 +325,8 @@ class E4Session(SessionBase):
                 sig = 'redesign-adds-EOL-to-con_out-again'
             elif self._only_auto_voa_rounding(self.e1, exp):
                 sig = 'redesign-corrects-auto-voa-rounded-above-p_max'
+            elif self._only_multiband_gain_lowered(self.e1, exp):
+                sig = 'redesign-lowers-multiband-gain:gain-mode:srs-estimation-on'
             if sig == 'redesign-of-reloaded-export-differs' or not self.known.is_open('C17', sig):
                 raise Violation('C17', sig, f'round {self.rounds}: {d}', signature=sig)
             # known finding: every later round of this session shifts by the same mechanism, so the remaining
@@ -355,6 +390,33 @@ class E4Session(SessionBase):
             if oa != ob or {k: v for k, v in a[uid].items() if k != 'operational'} != \
                     {k: v for k, v in b[uid].items() if k != 'operational'}:
                 return False
+        return True
+
+    def _only_multiband_gain_lowered(self, e1, e2):
+        """gain mode, Raman/SRS estimation switched on in SimParams, and the documents differ only in the gain_target of
+        band amplifiers inside Multiband_amplifier elements, every one of them lower after the redesign (by < 1 dB)"""
+        if self.world['eqpt']['Span'][0].get('power_mode', True):
+            return False
+        if not (self.sim_doc or {}).get('raman_params', {}).get('flag'):
+            return False
+        a = {e['uid']: e for e in e1['elements']}
+        b = {e['uid']: e for e in e2['elements']}
+        if set(a) != set(b) or sorted((c['from_node'], c['to_node']) for c in e1['connections']) != \
+                sorted((c['from_node'], c['to_node']) for c in e2['connections']):
+            return False
+        for uid in a:
+            if a[uid] == b[uid]:
+                continue
+            if a[uid]['type'] != 'Multiband_amplifier' or len(a[uid]['amplifiers']) != len(b[uid]['amplifiers']):
+                return False
+            if {k: v for k, v in a[uid].items() if k != 'amplifiers'} != {k: v for k, v in b[uid].items() if k != 'amplifiers'}:
+                return False
+            for x, y in zip(a[uid]['amplifiers'], b[uid]['amplifiers']):
+                ox, oy = dict(x['operational']), dict(y['operational'])
+                gx, gy = ox.pop('gain_target'), oy.pop('gain_target')
+                if x['type_variety'] != y['type_variety'] or ox != oy or gx is None or gy is None or \
+                        not (-1.0 < gy - gx <= 2e-6):
+                    return False
         return True
 
     def _probe(self):
@@ -483,8 +545,7 @@ def make_machine(prop, tier, cfg):
             self.sess = E4Session(world, props)
             session_started(self.sess)
             self.sess.boot()
-            # the Raman solver over a C+L comb costs seconds per design: multiband worlds only get the Raman-off document
-            self.sims = [1] if world['flavour'] == 'multiband' else list(range(len(SIM_DOCS)))
+            self.sims = list(range(len(SIM_DOCS)))
             if sim0 is not None and swarm['sim']:
                 self.sess.apply('set_sim', {'doc': SIM_DOCS[self.sims[sim0 % len(self.sims)]]})
             self.sess.apply('design', {})
@@ -518,6 +579,11 @@ def make_machine(prop, tier, cfg):
         @rule()
         def probe(self):
             self.sess.apply('probe', {})
+
+        @precondition(lambda self: self.sess is not None and self.sess.world.get('flavour') in ('multiband', 'raman'))
+        @rule(k=st.integers(1, 6))
+        def failed_design(self, k):
+            self.sess.apply('failed_design', {'solver_call': k})
 
         @precondition(lambda self: self.swarm['sim'])
         @rule(which=st.integers(0, len(SIM_DOCS) - 1))
